@@ -18,10 +18,10 @@ def gen(c, binary):
 def run(c):
     c.rule = ("one case = one argument tuple (start, end, step, now, real *time.Location out of 11 incl. DST, 30/45-minute and "
               "midnight-switching zones, week start 0-6 through the real calcUTCOffset or an arbitrary utc offset, width, mode, extend, "
-              "0-3 metrics with resolution and offset) drawn from 8 range shapes (recent, on/around every LOD switch, long, grid "
+              "0-3 metrics with resolution and offset) drawn from range shapes (recent, on/around every LOD switch, long, grid "
               "aligned, around the 7680 point limit, future, inside one bucket, degenerate), plus mathDiv/roundTime/calcUTCOffset "
               "probes; each tuple is run through the real GetTimescale and Timescale.GetLODs and through the compiled Lean model; "
-              "non-trivial = the returned axis has >= 2 levels of detail or the call hit the point limit; distinct by op lines")
+              "9 range shapes in total incl. straddling one LOD switch with a short tail; non-trivial = the returned axis has >= 2 levels of detail or the call hit the point limit; distinct by op lines")
     c.assumptions += [
         "Go's time package (zone rules, AddDate, Date) is data, not model: monthly cases hand the model the month boundaries "
         "observed on the real StepForward/startOfLOD; the harness checks those boundaries against CalOK's facts",
